@@ -8,7 +8,7 @@
    any more but still have their parent role); creation failing at any stage (oracle field c_fail,
    launch and CONFIGURE outcomes per role); DESTROY / after_DESTROY hooks (calls and tasks) at any
    weights.  "Owned" in the conclusions is the parent link (GetEnvironmentId), not the locked flag. *)
-From Verif Require Import Common Ownership Teardown OwnSpec OwnInv_proofs OwnThm_proofs.
+From Verif Require Import Gen_DoKill Common Ownership Teardown OwnSpec OwnInv_proofs OwnThm_proofs.
 Open Scope N_scope.
 
 (* --- destroy, full statement: a destroy that returned success leaves the environment unlisted and no
@@ -20,12 +20,15 @@ Print Assumptions C06_destroy_leaves_nothing.
 
 (* --- the same with everything the property lists: the listing is the old one minus this entry (so
        its detectors are free again), no pending call is left uncancelled and, unless the caller asked
-       to keep tasks, every task it still owned has been sent KILL. *)
+       to keep tasks, every task it still owned has been sent KILL.  (A destroy whose KILL call the master
+       refuses for some task returns an error, so it is not among the successes; [t_kill t <> 2] excludes
+       a task for which KillTasks still holds the acknowledgement registration of an earlier refused
+       attempt - such a task was unlocked then, and owned tasks are never unlocked and active.) *)
 Theorem C06_destroy_nothing_behind : forall s e force allow keep tfail s' u x,
   reachable s -> find_env e (s_envs s) = Some x ->
   step s (ODestroy e force allow keep tfail) = (s', u) -> o_rc u = 0 ->
   nothing_left e s' /\ s_envs s' = remove_env e (s_envs s) /\ o_pend u = 0 /\
-  (keep = false -> forall t, In t (s_roster s) -> t_owner t = Some e -> In (t_id t) (o_kills u)).
+  (keep = false -> forall t, In t (s_roster s) -> t_owner t = Some e -> t_kill t <> 2 -> In (t_id t) (o_kills u)).
 Proof. exact destroy_nothing_behind. Qed.
 Print Assumptions C06_destroy_nothing_behind.
 
@@ -41,11 +44,12 @@ Proof. exact failed_creation_leaves_nothing_holds. Qed.
 Print Assumptions C06_failed_creation_leaves_nothing.
 
 (* --- the same for the second half of an overlapped creation, where no deployment retry is involved:
-       every launched task (running, still staging or dead) is sent KILL, no call is left pending. *)
+       every launched task (running, still staging or dead) is sent KILL or - its KILL call refused by the
+       master - still in the roster, unowned; no call is left pending. *)
 Theorem C06_failed_overlapped_creation_leaves_nothing : forall s e c s' u,
   reachable s -> assocN e (s_snaps s) <> None -> c_fail c <> 6 ->
   step s (OFinish e c) = (s', u) -> o_rc u = 1 ->
-  (nothing_left e s' /\ launched_killed e c u) /\ o_pend u = 0.
+  (nothing_left e s' /\ launched_handled s' u) /\ o_pend u = 0.
 Proof. exact finish_nothing_behind. Qed.
 Print Assumptions C06_failed_overlapped_creation_leaves_nothing.
 
@@ -62,9 +66,26 @@ Print Assumptions C06_failed_creation_cancels_calls.
 (* --- "tasks that never became owned stay unowned and fall to the next cleanup": whatever unlocked task
        is in the roster, the next Cleanup sends it KILL.  *)
 Theorem C06_unowned_falls_to_next_cleanup : forall s t,
-  In t (s_roster s) -> is_locked t = false -> In (t_id t) (o_kills (snd (step s OCleanup))).
+  In t (s_roster s) -> is_locked t = false -> kill_refused t = false ->
+  In (t_id t) (o_kills (snd (step s OCleanup))).
 Proof. exact unowned_falls_to_cleanup. Qed.
 Print Assumptions C06_unowned_falls_to_next_cleanup.
+
+(* --- kill outcomes: a KILL call that fails for ONE task does not change what happens to the OTHER tasks of
+       the request, and a task that was not killed stays in the roster (with its owner).  The first two
+       conjuncts are the shape of doKillTasks read from the source on every run (gen/Gen_DoKill.v): the
+       failure branch puts the task back into the roster and does not leave the loop. *)
+Theorem C06_kill_failure_is_local :
+  dokill_puts_back = true /\ dokill_carries_on = true /\
+  (forall ids r t, In t r ->
+     In (t_id t) (snd (kill_tasks ids r)) \/
+     exists t', In t' (fst (kill_tasks ids r)) /\ t_id t' = t_id t /\ t_owner t' = t_owner t) /\
+  (forall ids r t, In t r -> mem_tid (t_id t) ids = true -> is_locked t = false ->
+     kill_refused t = false -> t_kill t <> 2 -> In (t_id t) (snd (kill_tasks ids r))) /\
+  (forall r t, In t r -> In (t_id t) (snd (cleanup r)) \/ In t (fst (cleanup r))) /\
+  (forall r t, In t r -> is_locked t = false -> kill_refused t = false -> In (t_id t) (snd (cleanup r))).
+Proof. exact kill_failure_is_local. Qed.
+Print Assumptions C06_kill_failure_is_local.
 
 (* --- "DESTROY hooks run only after the other tasks were released": in every consistent state (every
        reachable state is one — next theorem — and so is every intermediate state inside a request,
@@ -122,7 +143,7 @@ Example C06_nonvacuous :
   let c := mkSpec [0; 1] 0 [mkRole RPlain true 0 false; mkRole (RHookTask false 3%Z) false 0 false;
                             mkRole (RHookCall false 3%Z) false 0 false; mkRole (RHookTask true (-2)%Z) true 0 false;
                             mkRole RPend false 0 false; mkRole RPlain false 0 false; mkRole (RLeave 3) false 0 false;
-                            mkRole (RLeave 2) false 0 false] in
+                            mkRole (RLeave 2) false 0 false] [] in
   let ops := [OCreate 0 c; OControl 0 2 false; OFail [(0, 5)]] in
   let s := run st0 ops in
   valid_hist st0 ops = true /\
